@@ -1,0 +1,8 @@
+//go:build verif
+
+package cmd
+
+// VerifSmartFormatResult exposes smartFormatResult (how `rare expression` prints a result:
+// one that contains the array separator as `[a, b, ...]`, any other unchanged) to a
+// verification harness.
+func VerifSmartFormatResult(s string) string { return smartFormatResult(s) }
